@@ -249,7 +249,7 @@ where      : {where}
 {goal}
 """
 import json, os, sys
-sys.path.insert(0, "/verif"); sys.path.insert(0, os.environ.get("PYVC_REPO_SRC", "/repo/src"))
+sys.path.insert(0, os.environ.get("PYVC_HOME", "/verif")); sys.path.insert(0, os.environ.get("PYVC_REPO_SRC", "/repo/src"))
 KW = json.loads({kwargs!r})
 if KW is None:
     print("NO-INPUT: the verifier produced no concrete failing input for this obligation (no-failing-input-found)")
@@ -379,7 +379,8 @@ def check_case(target, module, cls, case, clauses=None):
     # the code under test must not see /verif on sys.path (griffe names a package relative to the sys.path entry
     # that contains it, which would silently detach the fixture packages from their docstrings)
     saved_path = list(sys.path)
-    sys.path[:] = [p for p in sys.path if os.path.abspath(p or ".") != "/verif"]
+    from pyvc import HOME as _home
+    sys.path[:] = [p for p in sys.path if os.path.abspath(p or ".") != _home]
     try:
         if selfobj is not None:
             result = fn(selfobj, **kwargs)
